@@ -8,9 +8,6 @@ assembler for the declarations, the files, the matcher switch and the inner budg
 -/
 namespace Casm
 
-/-- the same static part with the static-value optimisation switched -/
-def Static.withStatic (st : Static) (b : Bool) : Static := { st with opts := { st.opts with optStatic := b } }
-
 theorem evalVariable_switch (st : Static) (b : Bool) (d : Defs) : evalVariable (st.withStatic b) d = evalVariable st d := rfl
 theorem evalAsmBuiltin_switch (st : Static) (b : Bool) : evalAsmBuiltin (st.withStatic b) = evalAsmBuiltin st := rfl
 
